@@ -30,6 +30,7 @@ EXPLANATION = (
     "before rounding it (effective price unchanged by truncation). C04.3: request validation forces amounts and every "
     "price a request carries to be > 0 (threshold cells) and on the pair's precision grid, before the order exists. "
     "Numeric size of slippage and rounding to quote precision are not claimed."
+    " C04.5 (shared with C05.5): the open-order index never loses an order that is still open."
 )
 TRUSTED = ["CPython ast parser", "sa.absint weak-ordering interpreter (intervals over ranks; undetermined comparisons fork)",
            "assumption: prices > 0 and price impact >= 0 (asserted / validated in the code, see C04.3)"]
